@@ -120,10 +120,12 @@ func (manager *TaskManager) Create(pip pipservices.Pip) (result pipservices.Task
 	// add oLogger to oBroadcast
 	manager.tasks[taskname] = task
 	if err = manager.validWaitList([]string{taskname}, task, 100); err != nil {
+		delete(manager.tasks, taskname)
 		childScope.Close()
 		return nil, err
 	}
 	if err = manager.rootScope.AddTasks(1); err != nil {
+		delete(manager.tasks, taskname)
 		childScope.Close()
 		return nil, err
 	}
